@@ -51,6 +51,8 @@ THEOREMS = [
     "Opacus.Binary64.rne_rel_error",
     # the tie to the source: Generated/FloatBookkeeping.lean is re-translated from privacy_engine.py, accountants/utils.py, utils/uniform_sampler.py on every run
     "Opacus.C08.generated_bookkeeping_eq_model",
+    # … and Generated/CalibLoops.lean from the two while loops of get_noise_multiplier
+    "Opacus.C08.generated_calibration_loops_eq_model",
 ]
 RULE = (
     "calibration case = (accountant in {rdp,gdp,prv} or synthetic eps family+params, target, delta, L, epochs|steps, tolerance, fuel) drawn from VERIF_SEED; "
@@ -59,6 +61,7 @@ RULE = (
     "end-to-end cases = (accountant, L, epochs, target)"
 )
 TRUSTED = [
+    "the translator vharness/props/c08_loop_trans.py (Python `ast` -> one iteration of each `while` loop of get_noise_multiplier in continuation-passing form over the reals: guards, arithmetic, the epsilon queries and their position, the raise, which variables a branch updates; subset in its docstring, anything else is reported as a broken tie) is trusted to render the loops faithfully; the whole query sequence of the real function is also compared with the model by the behavioural correspondence",
     "the accountants' get_epsilon is an opaque oracle here (C06/C07/C12 are about its value); C08 is about the search around it and the step/rate bookkeeping",
     "exact binary64 model covers the normal range only (no subnormals/overflow/signs); tied to hardware floats by kernel Float witnesses and the exhaustive CPython comparison",
 ]
@@ -255,6 +258,8 @@ def regenerate(ctx):
     from .. import regen
     from . import c08_trans as T
     regen.regenerate(ctx, T, "Opacus.Generated.Float", "float bookkeeping (privacy_engine.py, accountants/utils.py, utils/uniform_sampler.py)")
+    from . import c08_loop_trans as TL
+    regen.regenerate(ctx, TL, "Opacus.Generated.Calib", "accountants/utils.py:get_noise_multiplier loops")
 
 
 def run(ctx):
